@@ -315,6 +315,11 @@ def gen_program(rng, dialect, nlines=None, equal_runs=True):
                 lines.append((min(no, maxno), gen_payload(rng, dialect, 251, same_len=ln)))
                 no += step
             i += k
+        elif rng.chance(0.06):
+            # the longest line the length byte can express (255 including framing)
+            lines.append((min(no, maxno), gen_payload(rng, dialect, 251, same_len=251)))
+            no += step
+            i += 1
         elif rng.chance(0.08):
             # an empty line (BB4W/SDL write these for blank lines)
             lines.append((min(no, maxno), b''))
@@ -324,4 +329,8 @@ def gen_program(rng, dialect, nlines=None, equal_runs=True):
             lines.append((min(no, maxno), gen_payload(rng, dialect, 251)))
             no += step
             i += 1
+    if lines and rng.chance(0.25):
+        # line numbers at the ends of the legal range (they need not be ascending in a stored program)
+        k = rng.below(len(lines))
+        lines[k] = (rng.choice([0, 1, maxno, maxno - 1, 32767, 32768, 255, 256]), lines[k][1])
     return lines
